@@ -26,6 +26,14 @@ class Stats:
                 "solver_s": round(self.solver_s, 3)}
 
 
+def _int_ranges():
+    from .values import DT
+    return {DT.UINT8: (0, 255), DT.INT8: (-128, 127), DT.UINT16: (0, 65535), DT.INT16: (-32768, 32767), DT.UINT32: (0, BOX_I), DT.UINT64: (0, BOX_I)}
+
+
+_INT_RANGE = _int_ranges()
+
+
 def box_constraints(inputs: dict) -> list:
     cs = []
     for sv in inputs.values():
@@ -37,7 +45,8 @@ def box_constraints(inputs: dict) -> list:
                 if k == "f":
                     cs.append(z3.And(v >= -BOX_F, v <= BOX_F))
                 elif k == "i":
-                    cs.append(z3.And(v >= -BOX_I, v <= BOX_I))
+                    lo, hi = _INT_RANGE.get(sv.dtype, (-BOX_I, BOX_I))
+                    cs.append(z3.And(v >= lo, v <= hi))
     return cs
 
 
